@@ -14,8 +14,10 @@ EXTENDS RWMutex, TraceLib
 VARIABLES l, drift, live
 tv == <<l, drift, live>>
 
+\* (-logsteps executions are always coarse: Fine = FALSE in the MCX configuration)
 XReset ==
-    /\ PReset
+    /\ PResetF(Fine)
+    /\ rres' = [p \in Procs |-> ""]
     /\ nreaders' = 0 /\ writing' = FALSE /\ writeWaiting' = 0
     /\ wch' = [p \in Procs |-> "none"]
     /\ pc' = [p \in Procs |-> "idle"]
